@@ -97,6 +97,10 @@ func runHistoryGo(kp *KeyPair, nu0 *big.Int, time0 int64, steps []any) string {
 			}
 			// as received by a client: decoded accumulator not yet cached
 			u.SignedAccumulator = &revocation.SignedAccumulator{Data: u.SignedAccumulator.Data, PKCounter: u.SignedAccumulator.PKCounter}
+			if st.boolean("othercounter") {
+				// the genuine signed bytes, announced for another key generation of the issuer
+				u.SignedAccumulator.PKCounter++
+			}
 			h.updates[st.str("u")] = u
 			out = append(out, "update-ok")
 		case "prepend":
@@ -248,6 +252,7 @@ func (b *histBuilder) prepend(u string, lo, hi int, wire string) {
 	b.upd[u] = [2]int{lo, win[1]}
 	b.expect = append(b.expect, fmt.Sprintf("prepend-ok:%d", lo))
 }
+
 // mkbadevents: update message from..to whose accumulator is genuine but one event value is altered:
 // every application must fail and leave the witness as it was
 func (b *histBuilder) mkbadevents(id string, from, to, k int) {
@@ -256,6 +261,15 @@ func (b *histBuilder) mkbadevents(id string, from, to, k int) {
 	b.badev[id] = true
 	b.expect = append(b.expect, "update-ok")
 }
+
+// mkothercounter: a genuine update announced under another key counter: never applicable
+func (b *histBuilder) mkothercounter(id string, from, to int) {
+	b.steps = append(b.steps, map[string]any{"t": "mkupdate", "u": id, "from": from, "to": to, "othercounter": true})
+	b.upd[id] = [2]int{from, to}
+	b.badev[id] = true
+	b.expect = append(b.expect, "update-ok")
+}
+
 // mkbadeventsVal: as mkbadevents, with event k of the window replaced by the given value
 func (b *histBuilder) mkbadeventsVal(id string, from, to, k int, val *big.Int) {
 	b.steps = append(b.steps, map[string]any{"t": "mkupdate", "u": id, "from": from, "to": to, "badevents": true, "badk": k, "bade": hx(val)})
@@ -313,6 +327,18 @@ func chosenEventValuesOp(g *Rng, kp *KeyPair) Op {
 					b.verifyw(tmp)
 				}
 			}
+		}
+	}
+	// genuine updates announced under another key counter, met by witnesses behind, inside and at
+	// the end of the window (at the end nothing is left to compute: the accumulator alone is taken over)
+	for from := 1; from <= n; from++ {
+		id := fmt.Sprintf("oc%d", from)
+		b.mkothercounter(id, from, n)
+		for wi := 0; wi <= n; wi++ {
+			tmp := fmt.Sprintf("t%s_%d", id, wi)
+			b.clone(fmt.Sprintf("w%d", wi), tmp)
+			b.apply(tmp, id)
+			b.verifyw(tmp)
 		}
 	}
 	o := b.op(kp, nu0, "chosen-event-values")
